@@ -1595,4 +1595,86 @@ theorem runScript_view {mode : Mode} (hok : ModeOK mode) (nf : Seen → Bool) :
           exact ih _ (by omega) _ _ rfl wa wb v
       · simp only [hlt, dif_neg, not_false_eq_true]
 
+/-! ## RS / FS histories: the run-time context tracks the last assignment (used by Props/C04.lean) -/
+
+/-- what `set_separator` leaves for a value assigned under a CONVFMT -/
+def sepOf (fsv : Bool) (a : Val × List Char) : Sep :=
+  if a.1.isNil then ⟨a.1, none, none, none⟩
+  else ⟨a.1, some (a.1.text a.2), some (a.1.btext a.2),
+        if isRexText fsv (a.1.text a.2) (a.1.btext a.2) then some (a.1.text a.2) else none⟩
+
+theorem setSeparator_eq (ok : List Char → Bool) (fsv : Bool) (fmt : List Char) (v : Val) :
+    setSeparator ok fsv fmt v = if accepts ok fsv fmt v then some (sepOf fsv (v, fmt)) else none := by
+  unfold setSeparator accepts sepOf
+  cases h1 : v.isNil <;> simp
+  cases h2 : isRexText fsv (v.text fmt) (v.btext fmt) <;> simp
+
+/-- the run-time context agrees with the history -/
+def Tracks (e : Env) (l : Last) : Prop :=
+  e.convfmt = l.fmt ∧ e.rs = sepOf false l.rs ∧ e.fs = sepOf true l.fs
+
+theorem tracks_init : Tracks env0 last0 := by
+  refine ⟨rfl, ?_, ?_⟩
+  · simp [env0, last0, sepOf, nilVal]
+  · simp [env0, last0, sepOf, strVal, isRexText]
+
+theorem tracks_step (ok : List Char → Bool) (e : Env) (l : Last) (op : SepOp) (h : Tracks e l) :
+    Tracks (e.step ok op) (l.step ok op) := by
+  obtain ⟨h1, h2, h3⟩ := h
+  cases op with
+  | convfmt f => exact ⟨rfl, h2, h3⟩
+  | ignorecase b => exact ⟨h1, h2, h3⟩
+  | setRS v =>
+    simp only [Env.step, Last.step, setSeparator_eq, h1]
+    by_cases ha : accepts ok false l.fmt v = true
+    · simp only [ha, if_true]; exact ⟨rfl, rfl, h3⟩
+    · simp only [ha]; exact ⟨h1, h2, h3⟩
+  | setFS v =>
+    simp only [Env.step, Last.step, setSeparator_eq, h1]
+    by_cases ha : accepts ok true l.fmt v = true
+    · simp only [ha, if_true]; exact ⟨rfl, h2, rfl⟩
+    · simp only [ha]; exact ⟨h1, h2, h3⟩
+  | sameRS => exact ⟨h1, h2, h3⟩
+  | sameFS => exact ⟨h1, h2, h3⟩
+
+theorem tracks_run (ok : List Char → Bool) (ops : List SepOp) :
+    ∀ (e : Env) (l : Last), Tracks e l → Tracks (e.run ok ops) (l.run ok ops) := by
+  induction ops with
+  | nil => intro e l h; exact h
+  | cons op ops ih => intro e l h; exact ih _ _ (tracks_step ok e l op h)
+
+/-- IGNORECASE is not touched by the assignments of the separators -/
+theorem selOfText_sepOf {α : Type} (fsv : Bool) (a : Val × List Char) (ic : Bool) (tx : Option (List α))
+    (h : ∀ x y r, tx = some (x :: y :: r) → a.1.isNil = false ∧ isRexText fsv (a.1.text a.2) (a.1.btext a.2) = true) :
+    selOfText (sepOf fsv a).rex ic tx = specSel (sepText a) ic tx := by
+  match tx, h with
+  | none, _ => rfl
+  | some [], _ => rfl
+  | some [_], _ => rfl
+  | some (x :: y :: r), h =>
+    obtain ⟨hn, hr⟩ := h x y r rfl
+    simp [selOfText, specSel, sepOf, sepText, hn, hr]
+
+theorem selOfText_regex {α : Type} (rex : Option (List Char)) (ic : Bool) (tx : Option (List α)) (src : List Char) (ic' : Bool)
+    (h : selOfText rex ic tx = .regex src ic') : rex = some src := by
+  match tx, rex, h with
+  | none, _, h => simp [selOfText] at h
+  | some [], _, h => simp [selOfText] at h
+  | some [_], _, h => simp [selOfText] at h
+  | some (_ :: _ :: _), none, h => simp [selOfText] at h
+  | some (_ :: _ :: _), some s, h =>
+    simp only [selOfText, Sel.regex.injEq] at h
+    rw [h.1]
+
+theorem sepOf_rex (fsv : Bool) (a : Val × List Char) (s : List Char) (h : (sepOf fsv a).rex = some s) :
+    (sepOf fsv a).text = some s := by
+  unfold sepOf at h ⊢
+  split at h
+  · simp at h
+  · rename_i hn
+    simp only [hn]
+    split at h
+    · simpa using h
+    · simp at h
+
 end Hawk.ReadIo
